@@ -31,6 +31,7 @@ func init() {
 			{Name: "readfaults", QShards: 4, TShards: 12, Run: c07ReadFaults},
 			{Name: "readfaults-large", Thorough: true, TShards: 6, Run: c07ReadFaultsLarge},
 			{Name: "writefaults", QShards: 2, TShards: 8, Run: c07WriteFaults},
+			{Name: "writefaults-large", QShards: 5, TShards: 12, Run: c07WriteFaultsLarge},
 			{Name: "filefaults", Thorough: true, Run: c07FileFaults},
 		},
 	})
@@ -317,3 +318,84 @@ var _ = sam.SAM{}
 var _ = bed.BED{}
 var _ = newick.Node{}
 var _ *rand.Rand
+
+// genLargeWritable returns a record whose output is larger than the usual
+// writer buffer sizes (4 KiB, 16 KiB, 64 KiB).
+func genLargeWritable(r *rand.Rand, kind int) writable {
+	size := pick(r, []int{4200, 9000, 16385, 17000, 20000, 33000, 66000, 70000})
+	switch kind {
+	case 0:
+		rec := genFastaRecord(r, size)
+		return writable{"fasta", rec.Write, rec.MarshalText, func() string { return fmt.Sprintf("fasta record with %d bases", size) }}
+	case 1:
+		rec := genFastqRecord(r, size/2)
+		return writable{"fastq", rec.Write, rec.MarshalText, func() string { return fmt.Sprintf("fastq record with %d bases", size/2) }}
+	case 2:
+		rec := genSAM(r)
+		rec.Seq, rec.Qual = string(longText(r, size/2, nil)), string(longText(r, size/2, nil))
+		return writable{"sam", rec.Write, rec.MarshalText, func() string { return fmt.Sprintf("sam record with %d bases", size/2) }}
+	case 3:
+		rec := genBED(r, 12)
+		cnt := size / 20
+		rec.BlockCount, rec.BlockSizes, rec.BlockStarts = cnt, randInts(r, cnt), randInts(r, cnt)
+		return writable{"bed", rec.Write, rec.MarshalText, func() string { return fmt.Sprintf("bed record with %d blocks", cnt) }}
+	default:
+		root, nodes := randomTree(r, 40, r.IntN(4))
+		decorate(r, nodes)
+		for j := 0; j < 4; j++ {
+			nodes[r.IntN(len(nodes))].Name = string(randSeq(r, []byte("abcdefghij '"), size/4))
+		}
+		return writable{"newick", root.Write, root.MarshalText, func() string { return fmt.Sprintf("tree with 40 nodes and long names (%d bytes)", size) }}
+	}
+}
+
+// c07WriteFaultsLarge: failing writers on large records; failure offsets are
+// every offset of the last 6000 bytes, every offset within 40 bytes of a
+// multiple of 4096, and every 61st offset otherwise.
+func c07WriteFaultsLarge(c *Ctx) {
+	per := c.N(1, 12)
+	idx := int64(0)
+	for kind := 0; kind < 5; kind++ {
+		for i := 0; i < per; i++ {
+			c.Case(idx, func(k *K) {
+				r := k.Rand()
+				w := genLargeWritable(r, kind)
+				k.Input("kind", w.kind)
+				k.Input("record", w.desc)
+				want, err := w.marshal()
+				if err != nil {
+					k.Failf("marshal-error", "MarshalText returned %v", err)
+					return
+				}
+				ok := &limitWriter{k: -1}
+				if err := w.write(ok); err != nil {
+					k.Failf("write-error", "%s.Write returned %v although the writer accepted everything", w.kind, err)
+				}
+				if !bytes.Equal(ok.buf, want) {
+					k.Failf("write-vs-marshal", "%s: Write produced %d bytes, MarshalText %d", w.kind, len(ok.buf), len(want))
+				}
+				k.Count("write_ok_runs", 1)
+				L := len(want)
+				k.Input("output_len", L)
+				for kk := 0; kk < L; kk++ {
+					near := kk%4096 < 40 || kk%4096 > 4056
+					if !(kk >= L-6000 || near || kk%61 == 0) {
+						continue
+					}
+					lw := &limitWriter{k: kk}
+					err := w.write(lw)
+					k.Count("write_fault_runs", 1)
+					k.Count("large_write_fault_runs", 1)
+					k.Evals(1)
+					if err == nil {
+						k.Input("writer_accepts_bytes", kk)
+						k.Failf("write-error-swallowed", "%s.Write returned nil although the writer failed after %d of %d bytes", w.kind, kk, L)
+						return
+					}
+				}
+				k.Nontrivial([]byte(w.kind), want[:min(200, len(want))], []byte(fmt.Sprint(L)))
+			})
+			idx++
+		}
+	}
+}
